@@ -1397,6 +1397,10 @@ private:
     if (!log.is_open())
       return; // No log file yet
 
+    // Offset just past the last COMPLETE record frame. Anything beyond it is the
+    // torn tail of a write that a crash interrupted.
+    std::uint64_t goodEnd = 0;
+
     while (log.peek() != EOF)
     {
       uint32_t totalLen = 0;
@@ -1411,6 +1415,7 @@ private:
       {
         break; // Incomplete entry
       }
+      goodEnd = static_cast<std::uint64_t>(log.tellg());
 
       if (!validateLogEntry(buffer, totalLen))
       {
@@ -1546,6 +1551,24 @@ private:
       {
         _kv.erase(key);
         _expiry.erase(key);
+      }
+    }
+
+    // Cut off a torn tail before the log is reopened for appending. Otherwise
+    // the next load would take the torn record's length prefix at face value,
+    // swallow the acknowledged records written after it, fail the CRC and lose
+    // them.
+    log.clear();
+    log.seekg(0, std::ios::end);
+    const auto fileSize = static_cast<std::uint64_t>(log.tellg());
+    log.close();
+    if (goodEnd < fileSize)
+    {
+      std::error_code ec;
+      std::filesystem::resize_file(_logPath, goodEnd, ec);
+      if (ec)
+      {
+        throw KVStoreException("Failed to truncate torn log tail: " + ec.message());
       }
     }
   }
